@@ -106,6 +106,14 @@ func policies() []policy {
 		}, func(id ident, fs bool) bool {
 			return (id.ChainOK && id.NameOK) || (id.LeafFormat && id.NameOK && id.CertKey == expectKey)
 		}},
+		{"authorized-keys-after-removal", func(e *env, k keys.DHPublicKey, fs bool) *transport.VerifyConfig {
+			// history: the key was authorized once and has been removed again (the life cycle of a
+			// consumed delegate key); some unrelated key is still in the set
+			set := ak(k)
+			set.RemoveKey(k)
+			set.AddKey(keys.GenerateNewX25519KeyPair().Public)
+			return &transport.VerifyConfig{AuthKeys: set, AuthKeysAllowed: true, Name: nameOf(e, fs), CurrentTime: e.now}
+		}, func(id ident, fs bool) bool { return false }},
 		{"skip-verify+callback", func(e *env, k keys.DHPublicKey, fs bool) *transport.VerifyConfig {
 			return &transport.VerifyConfig{InsecureSkipVerify: true, Name: nameOf(e, fs), CurrentTime: e.now,
 				AddVerifyCallback: func(c *certs.Certificate) error {
@@ -295,7 +303,7 @@ func main() {
 		}
 		r.Finish()
 	}
-	r.SetRule("mode {discoverable, hidden} x direction {honest client vs configured server, honest server vs configured client} x counterpart identity (14 kinds: honest; valid certificate + other key; other name; raw instead of dns name; expired; expiring exactly now; not yet valid; untrusted root; untrusted chain with trusted intermediate presented; self-signed; self-signed other key; intermediate omitted; intermediate as leaf; root as leaf) x verification policy {CA store, authorized keys, both, skip+additional callback, skip}; thorough: each configuration additionally with one corrupted byte in each MAC/tag position class of each handshake datagram. Oracle (one-directional): completion / offer / data delivery implies policy satisfied and key possessed (from construction metadata). Non-vacuity: the honest counterpart completes under every policy and mode. distinct_nontrivial = distinct (scenario, outcome) classes.")
+	r.SetRule("mode {discoverable, hidden} x direction {honest client vs configured server, honest server vs configured client} x counterpart identity (14 kinds: honest; valid certificate + other key; other name; raw instead of dns name; expired; expiring exactly now; not yet valid; untrusted root; untrusted chain with trusted intermediate presented; self-signed; self-signed other key; intermediate omitted; intermediate as leaf; root as leaf) x verification policy {CA store, authorized keys, both, authorized keys after add+remove of the key, skip+additional callback, skip}; thorough: each configuration additionally with one corrupted byte in each MAC/tag position class of each handshake datagram. Oracle (one-directional): completion / offer / data delivery implies policy satisfied and key possessed (from construction metadata). Non-vacuity: the honest counterpart completes under every policy and mode. distinct_nontrivial = distinct (scenario, outcome) classes.")
 	var scs []scenario
 	for _, hidden := range []bool{false, true} {
 		for _, imp := range []bool{true, false} {
@@ -339,8 +347,8 @@ func main() {
 	})
 	// non-vacuity: honest peers complete under every policy / mode / direction
 	for i, s := range scs[:base] {
-		if pick(s)[s.Ident].Kind != "honest" {
-			continue
+		if pick(s)[s.Ident].Kind != "honest" || ps[s.Policy].Name == "authorized-keys-after-removal" {
+			continue // the removal policy admits nobody by construction
 		}
 		k := s.key(pick(s), ps)
 		ok := results[i].clientOK && results[i].offered && results[i].dataDelivered
